@@ -489,6 +489,22 @@ func c16R4(a *A) {
 				endianFns = append(endianFns, g)
 			}
 		}
+		// ... and the pure reader helpers it calls
+		instrs(f, func(in ssa.Instruction) {
+			if c, ok := in.(*ssa.Call); ok {
+				if cal := c.Common().StaticCallee(); cal != nil && cal.Pkg == w.Repl && cal.Blocks != nil && !c.Common().IsInvoke() {
+					dup := false
+					for _, e := range endianFns {
+						if e == cal {
+							dup = true
+						}
+					}
+					if !dup && len(cal.Blocks) == 1 {
+						endianFns = append(endianFns, cal)
+					}
+				}
+			}
+		})
 		for _, ef := range endianFns {
 			instrs(ef, func(in ssa.Instruction) {
 				c, ok := in.(*ssa.Call)
